@@ -14,7 +14,7 @@ import (
 func init() {
 	register(&propDef{
 		ID:          "C09",
-		Explanation: "The fixpoint equation fmt(fmt(x)) == fmt(x) itself is not decided. Decides the structural necessary condition named by the property's anchors — line-break decisions depend only on layout flags that re-parsing the output reproduces: the parser derives each layout flag (Element.IndentChildren, Element.IndentAttrs, GoCode.Multiline) from the presence of a line break inside a source span, so on the flag=false branch the formatter itself must add no line break inside that span, and on the flag=true branch it must add one. R1 in the node-list writer, the line-break constant can reach the trailing-space write only under the `indent` mode (every assignment of a newline-containing constant to the written value is control-dependent on the indent parameter; values taken from the source node are carried over, not added); R2 for each flag, the constants written directly on the false branch contain no line break and the true branch writes at least one; R3 no attribute writer (they run inside the open-tag span) writes a line-break constant unconditionally; R5 a formatter function that writes a trimmed copy of a field tests that same copy (not the raw field) for line breaks; R6 the import rewriter that `templ fmt` runs takes its decision on the number of imports only after the import set is final; R7 the node-list writer takes the recorded trailing space of every node kind that records one (through the interface, or a type switch covering all implementers); R8 the language server's formatting answer is one edit from 0:0 to <number of lines>:0 carrying the formatter's output, so format-on-save and `templ fmt` produce the same file; R9 (= C08.R7) a flag derived from a sibling field is derived from its final value (a quote choice taken before decoding yields output that the next pass cannot parse); R4 (purity) no formatter function (Write/String methods of parser nodes and what they call in the package) reads mutable package-level state, the clock, the environment or iterates a map. NOT decided: nodes whose grammar allows but does not require a line break inside a single-line element (block component calls), expression text re-formatting by go/format, the fixpoint on concrete files.",
+		Explanation: "The fixpoint equation fmt(fmt(x)) == fmt(x) itself is not decided. Decides the structural necessary condition named by the property's anchors — line-break decisions depend only on layout flags that re-parsing the output reproduces: the parser derives each layout flag (Element.IndentChildren, Element.IndentAttrs, GoCode.Multiline) from the presence of a line break inside a source span, so on the flag=false branch the formatter itself must add no line break inside that span, and on the flag=true branch it must add one. R1 in the node-list writer, the line-break constant can reach the trailing-space write only under the `indent` mode (every assignment of a newline-containing constant to the written value is control-dependent on the indent parameter; values taken from the source node are carried over, not added); R2 for each flag, the constants written directly on the false branch contain no line break and the true branch writes at least one; R3 no attribute writer (they run inside the open-tag span) writes a line-break constant unconditionally; R5 a formatter function that writes a trimmed copy of a field tests that same copy (not the raw field) for line breaks; R6 the import rewriter that `templ fmt` runs takes its decision on the number of imports only after the import set is final; R7 the node-list writer takes the recorded trailing space of every node kind that records one (through the interface, or a type switch covering all implementers); R8 the language server's formatting answer is one edit from 0:0 to <number of lines>:0 carrying the formatter's output, so format-on-save and `templ fmt` produce the same file; R9 (= C08.R7) a flag derived from a sibling field is derived from its final value (a quote choice taken before decoding yields output that the next pass cannot parse); R10 the import rewriter does not mutate a file's import list while ranging over it; R4 (purity) no formatter function (Write/String methods of parser nodes and what they call in the package) reads mutable package-level state, the clock, the environment or iterates a map. NOT decided: nodes whose grammar allows but does not require a line break inside a single-line element (block component calls), expression text re-formatting by go/format, the fixpoint on concrete files.",
 		Assumptions: []string{"the parser sets a layout flag iff the corresponding source span contains a line break (elementparser.go / gocodeparser.go)"},
 		Trusted:     []string{"go/types", "x/tools go/packages"},
 		Run:         runC09,
@@ -71,6 +71,7 @@ func runC09(c *Ctx) {
 	trailerInterfaceCovered(c, "C09.R7")
 	formatEditCoversDocument(c, "C09.R8")
 	derivedFlagsFresh(c, "C09.R9")
+	importListNotMutatedWhileRanged(c, "C09.R10")
 	p := c.pkg("parser/v2")
 	info := p.TypesInfo
 
@@ -874,4 +875,47 @@ func formatEditCoversDocument(c *Ctx, rule string) {
 	}
 	c.count("format_edits", n)
 	c.floor(rule, 1)
+}
+
+// importListNotMutatedWhileRanged: C09.R10 — the import rewriter does not add to or delete from a file's import list
+// while ranging over that same list: astutil removes the entry from <file>.Imports in place, the range then skips the
+// entry that moved into its slot, and an import that should have been deleted survives until the next `templ fmt`.
+func importListNotMutatedWhileRanged(c *Ctx, rule string) {
+	p := c.pkg("cmd/templ/imports")
+	info := p.TypesInfo
+	n := 0
+	for _, fd := range allFuncDecls(p) {
+		ord := 0
+		ast.Inspect(fd.Body, func(x ast.Node) bool {
+			rs, ok := x.(*ast.RangeStmt)
+			if !ok {
+				return true
+			}
+			se, ok := ast.Unparen(rs.X).(*ast.SelectorExpr)
+			if !ok || se.Sel.Name != "Imports" {
+				return true
+			}
+			if t := info.TypeOf(se.X); t == nil || t.String() != "*go/ast.File" {
+				return true
+			}
+			ord++
+			n++
+			file := types.ExprString(se.X)
+			mut := ""
+			ast.Inspect(rs.Body, func(y ast.Node) bool {
+				if call, ok := y.(*ast.CallExpr); ok && len(call.Args) >= 2 {
+					if fn := calleeOf(info, call); fn != nil && strings.HasPrefix(fullName(fn), "golang.org/x/tools/go/ast/astutil.") && (strings.HasPrefix(fn.Name(), "Delete") || strings.HasPrefix(fn.Name(), "Add")) {
+						if types.ExprString(call.Args[1]) == file {
+							mut = "astutil." + fn.Name() + " at " + c.pos(call.Pos())
+						}
+					}
+				}
+				return true
+			})
+			c.check(mut == "", rule, fmt.Sprintf("%s|range-over-%s.Imports#%d|not-mutated-in-loop", funcKey(p, fd), file, ord), c.pos(rs.Pos()), "the ranged import list is not changed by the loop body",
+				fmt.Sprintf("%s ranges over %s.Imports and calls %s on the same file inside the loop: the call removes/inserts an entry of the list being ranged, so the entry after a deleted one is skipped — with two adjacent unused imports one survives the first `templ fmt` and is only removed by the second", fd.Name.Name, file, mut))
+			return true
+		})
+	}
+	c.count("ranges_over_file_imports", n)
 }
